@@ -410,14 +410,17 @@ class Engine(object):
 
     def settle(self):
         """Run until every greenlet is parked on a gate or a virtual timer."""
-        for _ in range(200):
+        import time as _time
+        t0 = _time.time()
+        while True:
             gevent.idle()
             if self.in_flight == 0:
                 gevent.idle()
                 if self.in_flight == 0:
                     return
+            if _time.time() - t0 > 20.0:
+                raise RuntimeError('quiescence watchdog')     # harness error (exit 2), never a violation
             gevent.sleep(0.001)
-        raise RuntimeError('quiescence watchdog')
 
     # -- observation hooks --------------------------------------------------------
     def on_write(self, tag, id, timestamp):
@@ -601,6 +604,8 @@ class Engine(object):
             self.do_restart()
         elif kind == 'serve':
             self.do_serve(action[1] if len(action) > 1 else None)
+        elif kind == 'answer':
+            self.do_serve(action[1] if len(action) > 1 else None, follow=False)
         elif kind == 'storage':
             for g in [g for g in self.pending if g.kind not in ('wait', 'relay')]:
                 if g in self.pending:
@@ -643,13 +648,15 @@ class Engine(object):
         else:
             g.ar.set(None)
 
-    def do_serve(self, spec):
+    def do_serve(self, spec, follow=True):
         """Serial schedule: let storage operations and timers run until a relay attempt is open, then answer it."""
         for _ in range(60):
             self.settle()
             relays = [g for g in self.pending if g.kind == 'relay']
             if relays:
                 self.release(relays[0], spec)
+                if not follow:
+                    return
                 # ... and let the storage operations that follow the answer complete
                 for _ in range(30):
                     self.settle()
